@@ -89,14 +89,15 @@ class HookDispatch(Harness):
              "cancel")
     bounds = {
         "quick": "one probe event with 1 hook (all 9 type/before-after kinds) x time list in {None, [], [t1], [t1,t2]} "
-                 "symbolic, plus 2-hook combinations of the same kind; market filters none/class/instance; 2 sessions "
+                 "symbolic, plus 2-hook combinations of the same kind (for market-step hooks every ordered pair of "
+                 "filters, and a 3-hook combination); market filters none/class/instance; 2 sessions "
                  "(2+1 steps), markets M0 + index market, 2 agents (scripted buy/sell/cancel)",
         "thorough": "adds [t1,t2,t3] lists and probe listed in the second session",
     }
     assumptions = (rn.REDUCTION_NOTE,
                    "the scripted run is small and mostly concrete (orders at fixed crossing prices); the subject is "
                    "the dispatch of hooks, symbolic are the hook specifications",)
-    outside = ("more than 3 time entries per hook / 2 hooks per event", "hook types beyond the 5 kinds pams defines",
+    outside = ("more than 3 time entries per hook / 3 hooks per event", "hook types beyond the 5 kinds pams defines",
                "time lists not in non-decreasing order")
     agreement_runs = 8
 
@@ -113,6 +114,18 @@ class HookDispatch(Harness):
             for n1, n2 in ((1, 1), (1, None), (None, 1)):
                 out.append({"hooks": [{"type": typ, "before": before, "n": n1, "filter": None},
                                       {"type": typ, "before": before, "n": n2, "filter": None}], "where": 0})
+        # several market-step hooks with different filters on one occasion (every ordered pair, and one triple)
+        fl = [None, "class:Market", "class:IndexMarket", "inst:M0", "inst:IDX"]
+        for before in (True, False):
+            for f1 in fl:
+                for f2 in fl:
+                    if f1 is None and f2 is None:
+                        continue
+                    out.append({"hooks": [{"type": "market", "before": before, "n": None, "filter": f1},
+                                          {"type": "market", "before": before, "n": None, "filter": f2}], "where": 0})
+            out.append({"hooks": [{"type": "market", "before": before, "n": None, "filter": "inst:IDX"},
+                                  {"type": "market", "before": before, "n": 1, "filter": "class:IndexMarket"},
+                                  {"type": "market", "before": before, "n": None, "filter": "inst:M0"}], "where": 0})
         if tier == "thorough":
             for typ, before in HOOK_KINDS:
                 out.append({"hooks": [{"type": typ, "before": before, "n": 2, "filter": None}], "where": 1})
